@@ -73,7 +73,7 @@ def handleRewrites (op : String) (j : Json) : Option (Except String Json) :=
     pure (Json.mkObj [
       ("plain", arr ((layoutR t).map rowToJson)),
       ("grid", arr (g.map rowToJson)), ("stream", arr (stream.map rowToJson)),
-      ("wf", Json.bool t.wf), ("wfT", Json.bool t.wfT), ("block_shaped", Json.bool (blockShaped g)),
+      ("wf", Json.bool t.wf), ("wf0", Json.bool t.wf0), ("wfT", Json.bool t.wfT), ("block_shaped", Json.bool (blockShaped g)),
       ("end_ok", Json.bool e.ok), ("delivered", Json.bool delivered)])
   | _ => none
 
